@@ -546,7 +546,10 @@ pub fn run_prop<P: Prop>(p: &P, cfg: &RunCfg) -> i32 {
                             st.key = None;
                             let vs = p.check(case, &mut st);
                             if st.evaluations.is_power_of_two() && st.samples.len() < 12 {
-                                st.samples.push(serde_json::to_value(case).unwrap());
+                                let v = serde_json::to_value(case).unwrap();
+                                if v.to_string().len() <= 2000 {
+                                    st.samples.push(v);
+                                }
                             }
                             let key = st.key.take();
                             if vs.is_empty() {
